@@ -275,18 +275,21 @@ def agrees (exp : Outcome) (obs : Observed) : Bool :=
 
 /-! ### a sink that cannot take the CSS (full device, closed pipe)
 
-  main.rs:248-269: the CSS is handed to the sink with ONE `write_all(..)?` and `main` returns
-  `Ok(())` without flushing.  A `File` is unbuffered, so a failing write is seen by `?`.
-  `Stdout` is a `LineWriter` (buffer 1024 bytes): everything up to the last `\n` is written at
-  once, a longer-than-buffer remainder too, but a short remainder with no newline stays in the
-  buffer and is written when the process exits — where the error has nowhere to go. -/
+  main.rs:248-271: the CSS is handed to the sink with ONE `write_all(..)?`, then `buf_out.flush()?`
+  (since the fix `cea0756`), then `Ok(())`.  A `File` is unbuffered, so a failing write is seen by
+  the first `?`.  `Stdout` is a `LineWriter` (buffer 1024 bytes): everything up to the last `\n` is
+  written at once, a longer-than-buffer remainder too, but a short remainder with no newline stays
+  in the buffer; the explicit flush writes it and reports the error.  On the pinned tree the flush
+  was missing: the remainder was written when the process exited, where the error had nowhere to
+  go (`flushChecked = false`, kept for the `C20_asFound_…` witnesses). -/
 
 /-- Non-empty CSS without any newline and shorter than stdout's buffer: stays buffered. -/
 def unterminatedSmall (css : String) : Bool :=
   css != "" && !css.toList.contains '\n' && css.utf8ByteSize < 1024
 
-/-- `flushChecked = false`: the code as it stands.  `true`: `main` flushes the sink and
-    propagates the error (`buf_out.flush()?`).  `sinkFails`: every write to the sink fails. -/
+/-- `flushChecked = true`: the code as it stands now — `main` flushes the sink and propagates the
+    error (`buf_out.flush()?`, main.rs:270).  `false`: the variant found on the pinned tree (no
+    flush).  `sinkFails`: every write to the sink fails. -/
 def outcomeIO (flushChecked : Bool) (f : Flags) (i : InputKind) (o : OutputKind) (lib : LibResult)
     (sinkFails : Bool) : Outcome :=
   if !sinkFails then outcome f i o lib else
@@ -299,7 +302,7 @@ def outcomeIO (flushChecked : Bool) (f : Flags) (i : InputKind) (o : OutputKind)
     else { exitZero := false, stdout := "", stderr := [.text w, .osError], file := none }
   | .stdout, .ok css w =>
     if css == "" || (!flushChecked && unterminatedSmall css) then
-      -- as found: the write error surfaces only after `main` has returned `Ok(())`
+      -- nothing to write, or (old variant) the write error surfaces only after `main` returned `Ok(())`
       { exitZero := true, stdout := "", stderr := [.text w], file := none }
     else { exitZero := false, stdout := "", stderr := [.text w, .osError], file := none }
 
@@ -370,11 +373,11 @@ def handle : List String → String
       "ok " ++ tokOfList (renderArgv { stdin := si, style := st, loadPaths := lps, noCharset := nc, quiet := q, noUnicode := nu } pos)
     | _, _, _, _, _, _, _ => "bad-op"
   -- outcome <stdout|file|unopenable> <ok|err> <css-or-rendered> <warnings>: expected exit class, stdout, stderr segments, file
-  | ["outcome", ok, kind, body, warn] => handleOutcome ok kind body warn "0" "0"
+  | ["outcome", ok, kind, body, warn] => handleOutcome ok kind body warn "1" "0"
   -- outcome … <flushChecked> <sinkFails>: the same with a sink whose writes fail
   | ["outcome", ok, kind, body, warn, fc, sf] => handleOutcome ok kind body warn fc sf
   -- agrees <stdout|file|unopenable> <ok|err> <body> <warnings> <exit code> <stdout> <stderr> <file>: P̂ on an observed run
-  | ["agrees", ok, kind, body, warn, code, so, se, fl] => handleAgrees ok kind body warn code so se fl "0" "0"
+  | ["agrees", ok, kind, body, warn, code, so, se, fl] => handleAgrees ok kind body warn code so se fl "1" "0"
   -- agrees … <flushChecked> <sinkFails>
   | ["agrees", ok, kind, body, warn, code, so, se, fl, fc, sf] => handleAgrees ok kind body warn code so se fl fc sf
   | _ => "bad-op"
